@@ -174,7 +174,7 @@ func c11run(idx int) run.Result {
 						// token-less call (e.g. SCAN): must be one of the complete requests' calls
 						found := false
 						for j := 0; j < q; j++ {
-							if strings.Contains(groups[j], cl.Str) {
+							if strings.Contains(groups[j], cl.Str) && len(per[j]) < gsize[j] {
 								per[j] = append(per[j], cl)
 								found = true
 								break
